@@ -183,6 +183,14 @@ func (g *Gen) Pred(depth int) Expr {
 	case 0, 1:
 		return N(float64(r.Range(1, 4)))
 	case 2:
+		if r.P(35) {
+			// huge and oddly spelled literals: out of range, or equal to a small position
+			b := g.bigNum()
+			if g.has("position") && g.has("last") && r.P(40) {
+				return rng.Pick(r, []Expr{Binary{"<", Fn("position"), b}, Binary{">", Fn("position"), b}, Binary{"-", Fn("last"), b}, Binary{"=", Fn("position"), b}})
+			}
+			return b
+		}
 		if g.C.IntPredsOnly {
 			return rng.Pick(r, []Expr{N(0), N(7)})
 		}
@@ -343,6 +351,18 @@ func (g *Gen) varOf(t Type) *Var {
 	v := rng.Pick(g.R, cands)
 	return &Var{Prefix: v.Prefix, Local: v.Local}
 }
+
+// BigNums are digit-only literals at and beyond the limits of the machine integer types; the
+// value of each is the nearest double.
+var BigNums = []Num{
+	{V: 9223372036854775807, Text: "9223372036854775807"}, {V: 9223372036854775808, Text: "9223372036854775808"}, {V: 1e19, Text: "10000000000000000000"},
+	{V: 18446744073709551616, Text: "18446744073709551616"}, {V: 18446744073709551616, Text: "18446744073709551617"}, {V: 18446744073709551616, Text: "18446744073709551618"},
+	{V: 36893488147419103232, Text: "36893488147419103233"}, {V: 4294967297, Text: "4294967297"}, {V: 4294967298, Text: "4294967298"}, {V: 2147483649, Text: "2147483649"},
+	{V: 1e30, Text: "1000000000000000000000000000001"}, {V: 4503599627370497, Text: "4503599627370497"}, {V: 9007199254740993, Text: "9007199254740993"},
+	{V: 2, Text: "2.000"}, {V: 2, Text: "02"}, {V: 1, Text: "1.0"}, {V: 1, Text: "0000000000000000000001"},
+}
+
+func (g *Gen) bigNum() Num { return rng.Pick(g.R, BigNums) }
 
 func (g *Gen) numLit() Expr {
 	if len(g.C.NumLits) > 0 && g.R.P(50) {
